@@ -1,6 +1,7 @@
 package sim
 
 import (
+	"encoding/base64"
 	"fmt"
 	"sort"
 	"strings"
@@ -207,6 +208,17 @@ func (ww *WW) Corrupted(tok *OutToken) {
 		}
 	}
 	variants = append(variants, s+s, s+"=", strings.ToUpper(s))
+	// well-formed base64 of arbitrary small JSON documents (V3) and CBOR items (V4)
+	for _, doc := range []string{`null`, ` null `, `true`, `0`, `""`, `[]`, `{}`, `[null]`, `{"token":null}`, `{"token":[null]}`,
+		`{"token":[{}]}`, `{"token":[{"mint":null,"proofs":null}]}`, `{"token":[{"mint":"m","proofs":[null]}]}`,
+		`{"token":[{"mint":"m","proofs":[{"amount":"x"}]}]}`, `{"token":{}}`, `{"token":"x"}`, `{"unit":5,"memo":[]}`, `[[[[[[]]]]]]`, `{"token":[{"proofs":[{"amount":1,"id":null,"secret":null,"C":null,"dleq":null,"witness":null}]}]}`} {
+		variants = append(variants, "cashuA"+base64.URLEncoding.EncodeToString([]byte(doc)), "cashuA"+base64.RawURLEncoding.EncodeToString([]byte(doc)))
+	}
+	for _, item := range [][]byte{{0xf6}, {0xf5}, {0x00}, {0x60}, {0x80}, {0xa0}, {0x81, 0xf6}, {0xa1, 0x61, 0x74, 0xf6}, {0xa1, 0x61, 0x74, 0x81, 0xf6},
+		{0xa1, 0x61, 0x74, 0x81, 0xa0}, {0xa1, 0x61, 0x74, 0x81, 0xa2, 0x61, 0x69, 0xf6, 0x61, 0x70, 0xf6}, {0xa1, 0x61, 0x74, 0x81, 0xa2, 0x61, 0x69, 0x40, 0x61, 0x70, 0x81, 0xf6},
+		{0xa1, 0x61, 0x74, 0x81, 0xa2, 0x61, 0x69, 0x40, 0x61, 0x70, 0x81, 0xa0}, {0xa1, 0x61, 0x74, 0xa0}, {0xa2, 0x61, 0x6d, 0x01, 0x61, 0x75, 0x02}, {0x9f, 0xff}, {0xbf, 0xff}, {0xc0, 0xf6}, {0xfb, 0, 0, 0, 0, 0, 0, 0, 0}} {
+		variants = append(variants, "cashuB"+base64.URLEncoding.EncodeToString(item), "cashuB"+base64.RawURLEncoding.EncodeToString(item))
+	}
 	to := tok.To
 	if to == "" {
 		to = ww.Wallets[0]
